@@ -162,8 +162,23 @@ func (e *Engine) callFn(fr *frame, fn Value, args []Value, in ssa.Value) Value {
 
 func (e *Engine) builtin(fr *frame, b *ssa.Builtin, args []Value, in ssa.Value) Value {
 	switch b.Name() {
+	case "close":
+		c, _ := args[0].(*ChanV)
+		if c == nil {
+			e.goPanicStr("close of nil channel")
+		}
+		if c.closed {
+			e.goPanicStr("close of closed channel")
+		}
+		c.closed = true
+		return nil
 	case "len":
 		switch x := args[0].(type) {
+		case *ChanV:
+			if x == nil {
+				return BV(64, 0)
+			}
+			return BV(64, int64(len(x.buf)))
 		case Slice:
 			return BV(64, int64(len(x.a)))
 		case string, SymStr:
